@@ -473,7 +473,21 @@ class StmtMixin:
             return
         for s1, v in self.ev(node.value, st, fr):
             if not s1.dead:
+                self.run_ret_post(node, s1, v, fr)
                 yield ("return", s1, v)
+
+    def run_ret_post(self, node, st, v, fr):
+        """postconditions stated at a labelled return: they may mention the function's locals (ghost-free witness of the
+        statement's existential); obligation kind is "post" like any other postcondition"""
+        c = fr.contract
+        lab = getattr(node, "_retlabel", None)
+        if c is None or fr.spec or fr.inline_stack or not c.ret_post or lab not in c.ret_post:
+            return
+        fr2 = self.sub_frame(fr)
+        fr2.result = v
+        for name, clause in c.ret_post[lab].items():
+            g = self.spec_eval(clause, st, fr2, c.name + ":" + name)
+            self.oblige_no_assume(st, g, "post", name, node, fr)
 
     def st_Break(self, node, st, fr):
         yield ("break", st, None)
